@@ -67,7 +67,7 @@ def cfg_text(spec, consts, invariants=(), properties=(), view=None, postconditio
 def consts(pid, **kw):
     c = dict(MaxH=1, OpKinds=set(), FilePaths={"/a", "/b"}, DirPaths=set(), RenFiles=set(), RenDirs=set(),
              OpenModes={"rwc"}, Bytes={1}, WriteLens={1}, Offsets={0}, ReadLens={2}, SetLens={0, 2},
-             SeekWh=set(), SeekOffs=set(), SeekNeg=set(), ViewSet={"/", "/a", "/b"}, Judge=JUDGE[pid], SyncKnob=False,
+             SeekWh=set(), SeekOffs=set(), SeekNeg=set(), ViewSet={"/", "/a", "/b"}, Judge=JUDGE[pid], SyncKnob=False, BlockSize=0,
              MaxLen=4, MaxCrash=0)
     c.update(kw)
     return c
@@ -146,6 +146,11 @@ def gen_configs(pid, tier):
                                   FilePaths={"/a"}, OpenModes={"rwc", "ra"}, Bytes={1, 2}, Offsets={0, 2}, ReadLens={1, 3},
                                   SetLens={1, 3}, SeekWh={"set", "end", "cur"}, SeekOffs={1}, SeekNeg={1}, ViewSet={"/", "/a"},
                                   MaxLen=4 if q else 5), "edges", True, [("std", 1), ("tokio", 2)]),
+            # truncation points inside and before read windows: longer files, set_len shrinking and extending,
+            # positional reads starting beyond the truncation point
+            ("gen_window", consts(pid, OpKinds={"open", "write_at", "set_len", "read_at", "sync_all"}, FilePaths={"/a"}, OpenModes={"rwc"},
+                                  WriteLens={1, 2}, Offsets={0, 2, 4}, ReadLens={2, 4}, SetLens={1, 2, 5}, ViewSet={"/", "/a"},
+                                  MaxLen=5 if q else 6), "edges", True, [("std", 1), ("tokio", 1)]),
             # every history (no VIEW) of a small alphabet
             ("gen_all", consts(pid, OpKinds={"write_file", "open", "write", "set_len", "sync_all", "sync_dir", "rename", "remove_file"},
                                FilePaths={"/a", "/b"}, RenFiles={"/a", "/b"}, OpenModes={"rwc"}, SetLens={0, 2},
@@ -253,15 +258,15 @@ def behstr(beh):
 # ---------------------------------------------------------------------------
 # TLC trace validation
 
-def trace_consts(pid, maxh, ps, knob=False):
-    return consts(pid, MaxH=maxh, SyncKnob=knob, FilePaths=set(), OpenModes=set(), Bytes=set(), WriteLens=set(), Offsets=set(),
+def trace_consts(pid, maxh, ps, knob=False, block=0):
+    return consts(pid, MaxH=maxh, SyncKnob=knob, BlockSize=block, FilePaths=set(), OpenModes=set(), Bytes=set(), WriteLens=set(), Offsets=set(),
                   ReadLens=set(), SetLens=set(), ViewSet=set(ps), MaxLen=0)
 
 
-def validate_trace(pid, path, maxh, ps, tag, impl=True, knob=False):
+def validate_trace(pid, path, maxh, ps, tag, impl=True, knob=False, block=0):
     """Returns (rejects {(run,i): clause}, lost set, kinds Counter, devs {(run,i): [names]}, drifts {(run,i): what}, prop result, impl result)."""
     env = {"TRACE": os.path.abspath(path)}
-    pcfg = cfg_text("TSpec", dict(MaxH=maxh, Judge=JUDGE[pid], SyncKnob=knob), postcondition="Accepted")
+    pcfg = cfg_text("TSpec", dict(MaxH=maxh, Judge=JUDGE[pid], SyncKnob=knob, BlockSize=block), postcondition="Accepted")
     pr = vlib.run_tlc(SUB, "FsRefTrace", pcfg, tag + "_prop", workers=1, env=env, dfs=True, heap="4g", timeout=1200)
     if pr.error or pr.timed_out or pr.unmatched:
         raise MachineryError(f"trace validation (FsRefTrace) failed on {path}: {pr.error or pr.unmatched or 'timeout'}")
@@ -272,7 +277,7 @@ def validate_trace(pid, path, maxh, ps, tag, impl=True, knob=False):
         kinds[f"{k}: kind {obs} where std returns {exp}"] += 1
     devs, drifts, ir = {}, {}, None
     if impl:
-        icfg = cfg_text("TSpec", trace_consts(pid, maxh, ps, knob), postcondition="Accepted")
+        icfg = cfg_text("TSpec", trace_consts(pid, maxh, ps, knob, block), postcondition="Accepted")
         ir = vlib.run_tlc(SUB, "FsImplTrace", icfg, tag + "_impl", workers=1, env=env, dfs=True, heap="4g", timeout=1200)
         if ir.error or ir.timed_out or ir.unmatched:
             raise MachineryError(f"trace validation (FsImplTrace) failed on {path}: {ir.error or ir.unmatched or 'timeout'}")
@@ -332,6 +337,73 @@ def run_gen(ck, fam, pid, name, c, emit, view, fes, w, only_line=None):
         replay_behaviours(ck, fam, pid, f"{name}_{fe}{hosts}", c, bpath, len(behs), fe, hosts, w, cap_known=6 if n == 0 else 0)
     if pid == "C07":
         sim_replay(ck, pid, name, c, bpath, w)
+
+
+def run_torn(ck, fam, pid, tier, w):
+    """block_size: TLC enumerates the histories (and, design level, every tearing choice of FsImpl against the
+    permitted set of FsRef); the harness runs every history that ends in a crash under many fs seeds; TLC decides
+    whether each recorded image lies in the permitted set."""
+    q = tier == "quick"
+    block = 2
+    cfgs = [("gen_crash_torn", consts(pid, BlockSize=block, OpKinds={"open", "write", "sync_all", "sync_dir", "crash"}, FilePaths={"/a"},
+                                      OpenModes={"rwc"}, WriteLens={1, 3}, ViewSet={"/", "/a"}, MaxLen=5 if q else 6, MaxCrash=1))]
+    if not q:
+        cfgs.append(("gen_crash_torn2", consts(pid, BlockSize=block, OpKinds={"write_file", "open", "write", "set_len", "sync_dir", "rename", "crash"},
+                                               FilePaths={"/a", "/b"}, RenFiles={"/a", "/b"}, OpenModes={"ra"}, WriteLens={3},
+                                               SetLens={1}, MaxLen=5, MaxCrash=1)))
+    for name, c in cfgs:
+        r = vlib.run_tlc(SUB, "FsGen", cfg_text("GenSpec", dict(c, EmitMode="edges"),
+                                                 invariants=["RefWellformed", "ImplInv", "DivergenceExplained"], view="GenView"),
+                         f"{pid}_{name}", workers=10, timeout=1500, heap="12g")
+        if r.violated or r.error or r.timed_out:
+            log(vlib.counterexample_text(r)[:6000])
+            raise MachineryError(f"{name} failed ({r.violated or r.error or 'timeout'}): a torn image of FsImpl is outside the permitted "
+                                 f"set of FsRef and no Dev_* predicate of a recorded finding explains it")
+        behs = vlib.extract_replays(r.stdout)
+        ck.add_tlc(r, name, exhaustive=True)
+        r.stdout = ""
+        bpath = os.path.join(w, f"{name}.ndjson")
+        with open(bpath, "w") as f:
+            f.write("\n".join(behs) + "\n")
+        tpath = os.path.join(w, f"{name}.trace.ndjson")
+        ps = sorted(c["ViewSet"])
+        out = vlib.run_driver("fs", ["torn", f"in={bpath}", f"out={tpath}", "ps=" + ",".join(ps), f"block={block}",
+                                     "seeds=24" if q else "seeds=48", f"maxh={c['MaxH']}"])
+        m = re.match(r"(\d+) crash histories .*: (\d+) distinct outcomes recorded, (\d+) histories with more than one image, (\d+) with", out)
+        nh, nruns, multi, torn = (int(x) for x in m.groups())
+        if torn == 0:
+            raise MachineryError(f"vacuity: no history of {name} was torn in more than one way")
+        rejects, lost, _k, devs, drifts, pr, ir = validate_trace(pid, tpath, c["MaxH"], ps, f"{pid}_{name}_trace", block=block)
+        ck.add_tlc(pr, f"trace_prop_{name}")
+        ck.add_tlc(ir, f"trace_impl_{name}")
+        ck.traces += nruns
+        ck.evaluations += nruns
+        ck.nontrivial += nruns
+        log(f"[{pid}] {name}: {r.distinct} distinct states (every tearing choice of FsImpl inside FsRef's permitted set); {out.strip()} "
+            f"-> FsRefTrace rejects {len(rejects)}, FsImplTrace drift {len(drifts)}")
+        ck.extra.setdefault("torn_writes", {})[name] = {"block_size": block, "histories": nh, "distinct_images_recorded": nruns,
+                                                        "histories_with_several_images": multi, "rejected": len(rejects)}
+        rej_runs = {rr for (rr, _i) in rejects}
+        for (rr, i), wht in drifts.items():
+            if rr not in rej_runs:
+                ck.impl_drift += 1
+        runs = {}
+        with open(tpath) as f:
+            for line in f:
+                e = json.loads(line)
+                if e["ev"] == "op":
+                    runs.setdefault(e["run"], []).append(e)
+
+        def describe(run, i):
+            return " ; ".join(opstr(e["op"]) for e in runs.get(run, []))
+
+        def payload(run, i):
+            evs = runs.get(run, [])
+            return {"kind": "torn", "property": pid, "config": name, "consts": jsonable(c), "block": block,
+                    "ops": [e["op"] for e in evs], "seed": evs[-1].get("seed") if evs else None, "text": describe(run, i),
+                    "observed_image": evs[-1]["res"]["v"] if evs else None}
+
+        judge_runs(ck, fam, pid, name, rejects, devs, drifts, describe, payload)
 
 
 def sim_replay(ck, pid, name, c, bpath, w):
@@ -511,7 +583,8 @@ def run(pid, tier, seed, replay=None):
         "one or two open handles; symlinks, hard links, permissions, timestamps are outside the property",
         "all fault probabilities 0, io_latency / page cache / capacity off; C07 exercises sync_probability by forcing the "
         "per-call coin (Fs::sync_probability = 1.0 / 0.0 before the call), which covers every outcome of any p; "
-        "block_size (torn writes) is not exercised",
+        "block_size = 2 with writes of 1 and 3 bytes: the tearing choices come from the fs rng (24 / 48 seeds per history), "
+        "FsImpl's choices are enumerated exhaustively; sync_probability and block_size are not combined",
         "open flag combinations restricted to those std::fs::OpenOptions accepts; write_at on append handles "
         "(Linux appends regardless of the offset) and set_len on read-only handles are not issued",
         "crash = drop every File, then Fs::crash() (what Sim::crash does for one host); directory renames are not "
@@ -554,6 +627,9 @@ def run(pid, tier, seed, replay=None):
     # 2. spec -> code -------------------------------------------------------
     for name, c, emit, view, fes in gen_configs(pid, tier):
         run_gen(ck, fam, pid, name, c, emit, view, fes, w)
+
+    if pid == "C07":
+        run_torn(ck, fam, pid, tier, w)
 
     # witnesses of the listed findings are re-run every time (they are TLC behaviours kept in corpus/)
     cdir = os.path.join(vlib.ROOT, "corpus")
@@ -609,6 +685,18 @@ def do_replay(ck, fam, path):
     elif rp["kind"] == "random":
         rc = rp["cfg"]
         run_random(ck, fam, pid, rc, w, 0, True)
+    elif rp["kind"] == "torn":
+        # re-execute the history under the recorded seed schedule (all seeds) and let TLC judge every image
+        c = unjson(rp["consts"])
+        beh = {"h": [{"op": o, "rr": {"ok": True}} for o in rp["ops"][:-1]], "last": {"op": rp["ops"][-1]}}
+        bpath = os.path.join(w, "torn.ndjson")
+        open(bpath, "w").write(json.dumps(beh) + "\n")
+        tpath = os.path.join(w, "torn.trace.ndjson")
+        ps = sorted(c["ViewSet"])
+        vlib.run_driver("fs", ["torn", f"in={bpath}", f"out={tpath}", "ps=" + ",".join(ps), f"block={rp['block']}", "seeds=48",
+                               f"maxh={c['MaxH']}"])
+        rejects, _l, _k, devs, drifts, pr, ir = validate_trace(pid, tpath, c["MaxH"], ps, f"{pid}_replay_torn", block=rp["block"])
+        judge_runs(ck, fam, pid, "replay", rejects, devs, drifts, lambda r, i: rp.get("text"), lambda r, i: dict(rp))
     else:
         log(f"[{pid}] replay of kind {rp['kind']}: re-run the check ({rp.get('what')})")
     if not ck.violations:
